@@ -37,6 +37,10 @@ NEEDS_SERVICES = False
 
 MODES = ('raise', 'raise_cancel', 'return_exc', 'top_gather', 'top_gather_cancel', 'online')
 ALL_KINDS = ('ok', 'raise', 'baseexc', 'selfcancel', 'innercancel')
+# bodies that need time to stop: when CancelledError is thrown in they take w further yields (try/finally clean-up) and then
+# re-raise it ('wind<w>') or swallow it and return their index ('swallow<w>'); uncancelled they behave like 'ok'
+WIND = {'wind1': (1, False), 'wind2': (2, False), 'swallow1': (1, True)}
+OKLIKE = ('ok',) + tuple(WIND)
 
 
 def _waiter_name(f):
@@ -73,7 +77,8 @@ def make_run_one(mode, P, pfs, cancel_caller, reduce=True):
     n = len(pfs)
     work_names = {f't-{i + 1}' for i in range(n)}
     top = mode.startswith('top_gather')
-    family = {'raise_cancel': 'cancel_on_error', 'top_gather_cancel': 'cancel_on_error', 'online': 'online'}.get(mode)
+    family = {'raise_cancel': 'cancel_on_error', 'top_gather_cancel': 'cancel_on_error', 'online': 'online',
+              'return_exc': 'return_exceptions'}.get(mode)
 
     def run_one(chooser):
         loop = vloopx.XLoop(chooser)
@@ -81,6 +86,7 @@ def make_run_one(mode, P, pfs, cancel_caller, reduce=True):
         loop.fifo_plumbing = True
         ph = [('new', 0)] * n
         started = []
+        never_started = set()
         in_body = set()
         side = {}
         st = {'viol': None, 'sig': None, 'running': 0, 'maxrun': 0, 'fails': [], 'caller': 'new', 'ctl': None, 'exit': None,
@@ -113,6 +119,7 @@ def make_run_one(mode, P, pfs, cancel_caller, reduce=True):
             try:
                 for j in range(k):
                     ph[i] = ('run', j + 1)
+                    suspends_again(i)
                     await asyncio.sleep(0)
                 if kind == 'raise':
                     st['fails'].append(i)
@@ -143,11 +150,37 @@ def make_run_one(mode, P, pfs, cancel_caller, reduce=True):
                 ph[i] = ('done', 'ok')
                 return i
             except asyncio.CancelledError:
-                if ph[i][0] != 'done':
-                    ph[i] = ('done', 'cancelled')
+                if ph[i][0] == 'done':
+                    raise
+                if kind in WIND:
+                    w, swallow = WIND[kind]
+                    for j in range(w):
+                        ph[i] = ('wind', j + 1)
+                        suspends_again(i)
+                        try:
+                            await asyncio.sleep(0)
+                        except asyncio.CancelledError:
+                            pass  # cancelled again while cleaning up: the clean-up goes on
+                    if swallow:
+                        ph[i] = ('done', 'swallowed')
+                        return i
+                ph[i] = ('done', 'cancelled')
                 raise
             finally:
                 st['running'] -= 1
+
+        def suspends_again(i):
+            # a body that goes on awaiting after the helper has exited is work "left running"; at the exit itself only
+            # never-cancelled tasks are judged when the caller was cancelled, so this catches bodies that were told to
+            # stop, were not waited for, and keep executing
+            if st['exited'] and family is not None and not st['phase2'] and st['exit'] is not None and st['exit'][0] == 'raised':
+                cc_ = st['ctl'] is not None and st['ctl'] != 'after-exit'
+                # a work task cancelled before its first step never runs the helper's wrapper code: name that cause
+                unstarted = sorted(never_started & work_names)
+                fail(f'{family}:task-still-running-after-exit' + (':caller-cancelled' if cc_ else '')
+                     + (':a-task-was-cancelled-before-it-started' if unstarted and family == 'return_exceptions' else ''),
+                     f'mode {mode}, pfs {pfs}, P={P}: pf {i} keeps running ({ph[i]}) after the helper raised {st["exit"][1:]} to its caller; '
+                     f'pf states {ph}; caller cancelled: {st["ctl"]}')
 
         async def canceller(fut):
             fut.cancel()
@@ -197,7 +230,7 @@ def make_run_one(mode, P, pfs, cancel_caller, reduce=True):
                         fail(sig, f'return_exceptions: expected {exp}, got {got if got is not None else val!r}')
                 elif mode == 'online':
                     got = [t.result() if t.done() and not t.cancelled() else 'n/a' for t in val]
-                    exp = [i if pfs[i][0] == 'ok' else None for i in range(n)]
+                    exp = [i if pfs[i][0] in OKLIKE else None for i in range(n)]
                     if any(pfs[i][0] in ERROR_KINDS for i in range(n)) and not cancelled_caller:
                         fail('online:error-swallowed', f'a background task raised but the pool exited normally; pfs {pfs}')
                     elif got != exp and not cancelled_caller:
@@ -316,7 +349,7 @@ def make_run_one(mode, P, pfs, cancel_caller, reduce=True):
             ht = helper_tasks()
             queued = tuple(nm for nm in started if nm not in in_body and not by_name(ht, nm).done())
             semas = tuple((getattr(sm, '_value', None), tuple(_waiter_name(f) for f in (getattr(sm, '_waiters', None) or ()))) for sm in semas_made)
-            return (queued, semas, tuple(ph), st['running'], st['maxrun'], tuple(st['fails']), st['caller'], st['ctl'], st['exit'], st['leftover'],
+            return (queued, tuple(sorted(never_started)), semas, tuple(ph), st['running'], st['maxrun'], tuple(st['fails']), st['caller'], st['ctl'], st['exit'], st['leftover'],
                     st['viol'] is None, tuple((t.get_name(), t.cancelling(), vloopx.pc(t)) for t in ht),
                     tuple(sorted((i, t.done()) for i, t in side.items())),
                     vloopx.pc(own['caller']) if 'caller' in own else None, own['caller'].cancelling() if 'caller' in own else 0)
@@ -325,8 +358,12 @@ def make_run_one(mode, P, pfs, cancel_caller, reduce=True):
             # order in which the helper's tasks took their first step (= order in which they queue on the semaphore)
             for t in helper_tasks():
                 nm = t.get_name()
-                if nm not in started and inspect.getcoroutinestate(t.get_coro()) != inspect.CORO_CREATED:
-                    started.append(nm)
+                if nm not in started and nm not in never_started:
+                    cs = inspect.getcoroutinestate(t.get_coro())
+                    if cs == inspect.CORO_CLOSED and t.cancelled():
+                        never_started.add(nm)  # cancelled before its first step: none of its code ever ran
+                    elif cs != inspect.CORO_CREATED:
+                        started.append(nm)
 
         semas_made = []
         real_sema = asyncio.Semaphore
@@ -390,7 +427,7 @@ def _explore_config(cfg):
 
 def _size(cfg):
     mode, P, pfs, cc = cfg
-    return (len(pfs), int(cc), sum(k for _, k in pfs), sum(1 for kd, _ in pfs if kd != 'ok'), P, MODES.index(mode), pfs)
+    return (len(pfs), int(cc), sum(k + WIND.get(kd, (0,))[0] for kd, k in pfs), sum(1 for kd, _ in pfs if kd != 'ok'), P, MODES.index(mode), pfs)
 
 
 def configs(tier):
@@ -421,6 +458,28 @@ def configs(tier):
                         if cfg not in seen:
                             seen.add(cfg)
                             out.append(cfg)
+    # bodies that take time to stop after being cancelled
+    wind_t = [('wind1', 1), ('wind2', 1), ('swallow1', 1)]
+    other_t = [('ok', 0), ('raise', 0)]
+    fam = []
+    if tier == 'quick':
+        fam += [(pfs, Ps, (False, True)) for pfs in itertools.product(wind_t + other_t, repeat=2) for Ps in [(1, 2)]
+                if any(kd in WIND for kd, _ in pfs)]
+        fam += [((a, b, c), (1, 2), (True,)) for a in wind_t for b in wind_t for c in other_t + [('wind1', 1)]]
+    else:
+        wind_t2 = wind_t + [('wind1', 2), ('wind2', 2)]
+        fam += [(pfs, (1, 2, 3), (False, True)) for pfs in itertools.product(wind_t2 + other_t + [('raise', 1)], repeat=2)
+                if any(kd in WIND for kd, _ in pfs)]
+        fam += [(pfs, (1, 2), (False, True)) for pfs in itertools.product(wind_t + other_t, repeat=3)
+                if sum(1 for kd, _ in pfs if kd in WIND) >= 2]
+    for pfs, Ps, ccs in fam:
+        for P in Ps:
+            for mode in MODES:
+                for cc in ccs:
+                    cfg = (mode, P, tuple(pfs), cc)
+                    if cfg not in seen:
+                        seen.add(cfg)
+                        out.append(cfg)
     out.sort(key=_size)
     return out
 
@@ -432,6 +491,8 @@ SELFCHECK = [
     ('return_exc', 1, (('raise', 0), ('ok', 1)), True),
     ('return_exc', 2, (('innercancel', 0), ('baseexc', 1)), False),
     ('raise_cancel', 2, (('innercancel', 1), ('ok', 1)), True),
+    ('return_exc', 1, (('wind2', 1), ('swallow1', 1)), True),
+    ('raise_cancel', 2, (('raise', 0), ('wind1', 1)), True),
 ]
 
 
@@ -482,7 +543,12 @@ def check(tier, seed, procs):
         'executions_by_feature': dict(sorted(cnt.items())),
         'deviation_bound': 'unbounded (every order of task steps; asyncio callbacks FIFO; state-hash pruned)',
         'bounds': ('modes ' + '/'.join(MODES) + '; ' +
-                   ('2 partial functions, each returns | raises an Exception | raises a non-Exception BaseException | raises CancelledError | '
+                   ('plus bodies that take 1-2 further yields to stop once cancelled (re-raising or swallowing the cancellation): 2 pfs in all '
+                    'combinations with returns/raises, 3 pfs (two such bodies + one more) with a cancelled caller; and: '
+                    if tier == 'quick' else
+                    'plus bodies that take 1-2 further yields to stop once cancelled (re-raising or swallowing): 2 pfs (P 1-3), 3 pfs with >= 2 such '
+                    'bodies (P 1-2), caller cancelled or not; and: ') + (
+                    '2 partial functions, each returns | raises an Exception | raises a non-Exception BaseException | raises CancelledError | '
                     'awaits an inner future that a side task cancels, after 0..1 yields; 3 partial functions, each returns|raises after 0..1 '
                     'yields; parallelism 1-2; caller cancelled at any step or not (with 3 partial functions and a cancelled caller: at most '
                     'one yield in total)'
